@@ -170,9 +170,12 @@ pub struct Credential {
   pub properties: Object,
   pub proof: Option<Proof>,
 }
-impl IssuerData { #[verifier::external_body] pub fn id_ref(&self) -> &Url { unimplemented!() } }
+pub uninterp spec fn issuer_data_id(o: &IssuerData) -> &Url;
+pub open spec fn issuer_url_spec(i: &Issuer) -> &Url { match i { Issuer::Url(u) => u, Issuer::Obj(o) => issuer_data_id(o) } }
+impl IssuerData { #[verifier::external_body] pub fn id_ref(&self) -> (r: &Url) ensures r == issuer_data_id(self) { unimplemented!() } }
 impl Issuer {
   pub fn url(&self) -> (r: &Url)
+    ensures r == issuer_url_spec(self),
   {
     match self {
       Self::Url(url) => url,
@@ -740,7 +743,10 @@ pub mod vdep {
   #[verifier::external_body] pub struct CoreDocument { _p: () }
   #[verifier::external_body] pub struct CoreDID { _p: () }
   #[verifier::external_body] pub struct JwsHeader { _p: () }
-  #[verifier::external_body] pub struct JwsVerificationOptions { _p: () }
+  #[verifier::external_body] pub struct DIDUrl { _p: () }
+  #[verifier::external_body] #[derive(Clone, Copy)] pub struct MethodScope { _p: () }
+  /// identity_document::verifiable::JwsVerificationOptions (fields as in the repository)
+  pub struct JwsVerificationOptions { pub nonce: Option<String>, pub method_scope: Option<MethodScope>, pub method_id: Option<DIDUrl> }
   #[verifier::external_body] pub struct DidError { _p: () }
   #[verifier::external_body] pub struct CoreError { _p: () }
   pub mod identity_document { pub mod error { use vstd::prelude::*; #[verifier::external_body] pub struct Error { _p: () } } }
@@ -822,6 +828,12 @@ pub enum JwtValidationError {
   Revoked,
   Suspended,
 }
+/// conversions into the boxed error payloads (`err.into()`): opaque
+impl From<CoreError> for BoxedError { #[verifier::external_body] fn from(e: CoreError) -> Self { unimplemented!() } }
+impl From<DidError> for BoxedError { #[verifier::external_body] fn from(e: DidError) -> Self { unimplemented!() } }
+impl From<TsError> for BoxedError { #[verifier::external_body] fn from(e: TsError) -> Self { unimplemented!() } }
+impl From<Error> for BoxedError { #[verifier::external_body] fn from(e: Error) -> Self { unimplemented!() } }
+
 pub struct CompoundJwtPresentationValidationError {
   pub presentation_validation_errors: Vec<JwtValidationError>,
 }
@@ -848,11 +860,6 @@ impl CompoundJwtPresentationValidationError {
     }
   }
 }
-/// conversions into the boxed error payloads (`err.into()`): opaque
-impl From<CoreError> for BoxedError { #[verifier::external_body] fn from(e: CoreError) -> Self { unimplemented!() } }
-impl From<DidError> for BoxedError { #[verifier::external_body] fn from(e: DidError) -> Self { unimplemented!() } }
-impl From<TsError> for BoxedError { #[verifier::external_body] fn from(e: TsError) -> Self { unimplemented!() } }
-impl From<Error> for BoxedError { #[verifier::external_body] fn from(e: Error) -> Self { unimplemented!() } }
 /// JSON deserialisation of the presentation claims: uninterpreted
 pub uninterp spec fn json_claims(b: Seq<u8>) -> Option<PresentationJwtClaims<'static>>;
 impl<'p> PresentationJwtClaims<'p> {
